@@ -344,7 +344,10 @@ func rulesDecideOnStep(c *Ctx, r *Report, ordM, ordL bool) {
 // sibling recurrence
 
 type alignFn struct {
-	f       *ssa.Function
+	entry   *ssa.Function // the exported aligner
+	es      *symb         // its expressions
+	entryBn *Sym          // row length as the entry function passes it to the traceback
+	f       *ssa.Function // the function that fills the table (the entry itself, or a helper stage it calls first)
 	s       *symb
 	decide  *ssa.Call
 	cands   [3]*Sym
@@ -401,7 +404,43 @@ func loadAlign(c *Ctx, r *Report, name, traceName string) *alignFn {
 		r.undecided("SIB", where, "anchor", "", "function, decideOnStep or "+traceName+" not found")
 		return nil
 	}
-	a := &alignFn{f: f, s: newSymb(f), traceFn: tr}
+	entry := f
+	tcalls := staticCallsTo(entry, tr)
+	if len(tcalls) != 1 || len(tcalls[0].Call.Args) != 2 {
+		r.undecided("SIB", where, "anchor", "", fmt.Sprintf("expected one %s call, found %d", traceName, len(tcalls)))
+		return nil
+	}
+	es := newSymb(entry)
+	// a fill stage split off into a helper: entry calls fill(a, b, m) -> (blocks, bn) and hands both to the traceback
+	var fillCall *ssa.Call
+	if len(staticCallsTo(f, dec)) == 0 {
+		for _, arg := range tcalls[0].Call.Args {
+			if ex, ok := arg.(*ssa.Extract); ok {
+				if cl, ok := ex.Tuple.(*ssa.Call); ok {
+					if g := cl.Call.StaticCallee(); g != nil && g.Blocks != nil && c.inModule(g) && len(staticCallsTo(g, dec)) == 1 {
+						fillCall = cl
+					}
+				}
+			}
+		}
+		if fillCall != nil {
+			okArgs := len(fillCall.Call.Args) == len(entry.Params)
+			for i, a := range fillCall.Call.Args {
+				if i >= len(entry.Params) || a != ssa.Value(entry.Params[i]) {
+					okArgs = false
+				}
+			}
+			ex0, ok0 := tcalls[0].Call.Args[0].(*ssa.Extract)
+			ex1, ok1 := tcalls[0].Call.Args[1].(*ssa.Extract)
+			if !okArgs || !ok0 || !ok1 || ex0.Tuple != ssa.Value(fillCall) || ex1.Tuple != ssa.Value(fillCall) || ex0.Index != 0 || ex1.Index != 1 {
+				r.undecided("SIB", where, "anchor", "", "the table-filling stage is a helper, but it is not called with the aligner's own parameters in order or its (table, row length) results are not handed straight to the traceback")
+				return nil
+			}
+			f = fillCall.Call.StaticCallee()
+			r.analysed(fname(f))
+		}
+	}
+	a := &alignFn{entry: entry, es: es, f: f, s: newSymb(f), traceFn: tr}
 	calls := staticCallsTo(f, dec)
 	if len(calls) != 1 || len(calls[0].Call.Args) != 3 {
 		r.undecided("SIB", where, "anchor", "", fmt.Sprintf("expected one decideOnStep call, found %d", len(calls)))
@@ -411,14 +450,28 @@ func loadAlign(c *Ctx, r *Report, name, traceName string) *alignFn {
 	for i, arg := range calls[0].Call.Args {
 		a.cands[i] = a.s.expr(arg)
 	}
-	tcalls := staticCallsTo(f, tr)
-	if len(tcalls) != 1 || len(tcalls[0].Call.Args) != 2 {
-		r.undecided("SIB", where, "anchor", "", fmt.Sprintf("expected one %s call, found %d", traceName, len(tcalls)))
-		return nil
-	}
 	a.trace = tcalls[0]
-	a.blocks = a.s.expr(tcalls[0].Call.Args[0])
-	a.bn = a.s.expr(tcalls[0].Call.Args[1])
+	a.entryBn = es.expr(tcalls[0].Call.Args[1])
+	if fillCall == nil {
+		a.blocks = a.s.expr(tcalls[0].Call.Args[0])
+		a.bn = a.s.expr(tcalls[0].Call.Args[1])
+	} else {
+		// the table and row length as the fill stage itself computes them: its single return
+		var ret *ssa.Return
+		nRet := 0
+		instrs(f, func(in ssa.Instruction) {
+			if rt, ok := in.(*ssa.Return); ok {
+				ret = rt
+				nRet++
+			}
+		})
+		if nRet != 1 || len(retOperands(ret)) != 2 {
+			r.undecided("SIB", where, "anchor", "", "the table-filling helper does not have a single (table, row length) return")
+			return nil
+		}
+		a.blocks = a.s.expr(retOperands(ret)[0])
+		a.bn = a.s.expr(retOperands(ret)[1])
+	}
 	// the store of decideOnStep's result: *(&blocks[i]) = call
 	for _, ref := range *a.decide.Referrers() {
 		if st, ok := ref.(*ssa.Store); ok && st.Val == a.decide {
@@ -1014,7 +1067,7 @@ func rulesSiblingRecurrence(c *Ctx, r *Report, zeroGapOpen bool) {
 				r.violated("SIB2", fn, "Get "+cl, c.pos(call.Pos()), "substitution-matrix lookup with arguments in an order no step kind uses: "+s.render(a.repl()))
 			}
 		})
-		r.floor("SIB2-"+a.f.Name(), nGet, 9, "Get call sites")
+		r.floor("SIB2-"+a.f.Name(), nGet, 5, "Get call sites (9 today; gap-open lookups may live in a helper)")
 		// edge stores: the step label written on an edge matches the class of the score lookup
 		a.edgeRule(c, r)
 		if !zeroGapOpen {
@@ -1151,7 +1204,7 @@ func (a *alignFn) indexRule(c *Ctx, r *Report) {
 	r.check(len(bad) == 0, "SIB-IDX", fn, "sequence indices", c.pos(a.f.Pos()),
 		fmt.Sprintf("all %d reads of a and b use a[i/bn-1] and b[i%%bn-1]", n),
 		"sequence characters are read at other positions than the cell's own row/column: "+strings.Join(bad, "; "))
-	r.floor("SIB-IDX-"+a.f.Name(), n, 6, "reads of a and b")
+	r.floor("SIB-IDX-"+a.f.Name(), n, 2, "reads of a and b (6 today; repeated reads may share a local)")
 }
 
 // rulesTraceFollowsFill (SIB3, SIB5): C08 only.
@@ -1215,7 +1268,7 @@ func rulesTraceFollowsFill(c *Ctx, r *Report) {
 	}
 	// SIB5: Local's returned offsets are the fill's sequence indices of the first cell
 	rets := []*ssa.Return{}
-	instrs(l.f, func(in ssa.Instruction) {
+	instrs(l.entry, func(in ssa.Instruction) {
 		if rt, ok := in.(*ssa.Return); ok {
 			rets = append(rets, rt)
 		}
@@ -1224,11 +1277,9 @@ func rulesTraceFollowsFill(c *Ctx, r *Report) {
 		r.undecided("SIB5", "align.Local", "return", "", "expected a single 4-result return")
 		return
 	}
-	cell := l.s.expr(&ssa.Extract{}) // placeholder, replaced below
-	_ = cell
 	var cellSym *Sym
 	for _, v := range rets[0].Results[1:3] {
-		for _, e := range l.s.expr(v).find(func(s *Sym) bool { return s.Op == "extract:1" }) {
+		for _, e := range l.es.expr(v).find(func(s *Sym) bool { return s.Op == "extract:1" && len(s.Args) == 1 && s.Args[0].Val == ssa.Value(l.trace) }) {
 			cellSym = e
 		}
 	}
@@ -1236,7 +1287,7 @@ func rulesTraceFollowsFill(c *Ctx, r *Report) {
 		r.undecided("SIB5", "align.Local", "return", c.pos(rets[0].Pos()), "returned offsets are not computed from the traceback's first-cell index")
 		return
 	}
-	replRet := map[string]string{cellSym.String(): "CELL", l.bn.String(): "bn"}
+	replRet := map[string]string{cellSym.String(): "CELL", l.entryBn.String(): "bn"}
 	replFill := map[string]string{l.idx.String(): "CELL", l.bn.String(): "bn"}
 	// the fill's a-index and b-index
 	var aIdx, bIdx string
@@ -1250,7 +1301,7 @@ func rulesTraceFollowsFill(c *Ctx, r *Report) {
 			}
 		}
 	})
-	gotA, gotB := l.s.expr(rets[0].Results[1]).render(replRet), l.s.expr(rets[0].Results[2]).render(replRet)
+	gotA, gotB := l.es.expr(rets[0].Results[1]).render(replRet), l.es.expr(rets[0].Results[2]).render(replRet)
 	r.check(gotA == aIdx, "SIB5", "align.Local", "start offset in a", c.pos(rets[0].Pos()),
 		"returned offset "+gotA+" is the index the fill uses to read a for a cell", "returned offset "+gotA+" differs from the index "+aIdx+" the fill reads a at for the first cell")
 	r.check(gotB == bIdx, "SIB5", "align.Local", "start offset in b", c.pos(rets[0].Pos()),
